@@ -645,7 +645,11 @@ func roleOfPub(pk []byte) string {
 // runBlock executes one block the way Tendermint would drive it.
 func (r *replica) runBlock(b BlockSpec) BlockRes {
 	if b.Restart {
+		// a node that cannot start again from its own databases (panic while the application is rebuilt) is a verdict
+		// about the application, like a panic inside a block
+		r.inBlock = true
 		r.restart()
+		r.inBlock = false
 	}
 	h := r.height + 1
 	r.time = r.time.Add(time.Duration(1+b.TimeJump) * chainBlockInterval)
